@@ -59,14 +59,14 @@ example : ∃ (σ : Asg G), 0 < (inst σ (verbTable 3).1).length ∧
 
 /-! ## the driver terminates -/
 
-/-- **C17_drive_terminates** (in-place subtables: rearrangement and contextual).
+/-- **C17_drive_terminates** (`_partial`: the in-place subtables, rearrangement and contextual; full statement below).
     `driveLoopO` is defined by well-founded recursion on `psi` = the code's own budget (remaining `max_ops`,
     look-ahead), with a guard that returns `none` if an iteration fails to decrease it. For every state
     table, every lookup, every buffer in the in-place mode (`have_output = false`, `idx ≤ len`) the guard
     never fires, and the loop performs at most `(len - idx) + max(max_ops, 0) + 1` iterations:
     an iteration either consumes a glyph or — only with DONT_ADVANCE — one unit of `max_ops`, and once
     `max_ops ≤ 0` it always consumes a glyph. -/
-theorem C17_drive_terminates (m : Machine) (rf : Array Range) (sf : Nat) (b : Buf) (cs : CS) (st : Nat)
+theorem C17_drive_terminates_partial (m : Machine) (rf : Array Range) (sf : Nat) (b : Buf) (cs : CS) (st : Nat)
     (lr : Option Nat) (steps : Nat) (ho : b.haveOutput = false) (hi : b.idx ≤ b.len) :
     (driveLoopO m rearrCtx rf sf b cs st lr steps ≠ .ok none ∧
       ∀ b' k, driveLoopO m rearrCtx rf sf b cs st lr steps = .ok (some (b', k)) →
